@@ -20,3 +20,8 @@ package sharding
 //@   loop 2 (for j < MaxLinks)
 //@     invariant true
 //@   modifies nothing
+
+//@ func New
+//@   opts trusted
+//@   ensures res != nil
+//@   modifies nothing
